@@ -210,3 +210,140 @@ package regclient
 //@ func (*RegClient).imageCopyOpt$6$1
 //@   prop C03
 //@   requires referrer-target-is-a-digest-reference: referrerTgt.Tag == ""
+
+// ---- C09: export writes a layout whose digest-named entries hold what the digest names; import
+// pushes each blob under the descriptor that names it and manifests only after the blobs ----
+// Export half (imageExportDescriptor, for every descriptor of the image graph):
+//   - the tar entry is named by the digest path of the (validated) descriptor being exported;
+//   - a manifest entry holds the raw body of the manifest fetched for that descriptor from the
+//     same reference, the header size is the length of that body;
+//   - a blob entry is copied from BlobGet of the SAME descriptor on the same reference, the header
+//     size is the descriptor's size and success means exactly that many bytes were copied;
+//   - the recursion goes into the manifest's own config, layers and index entries.
+//@ ghost $expBody []byte
+//@ ghost $expHdrName string
+//@ ghost $expHdrSize int64
+//@ ghost $twdHadIt bool
+//@ func (*RegClient).imageExportDescriptor(ctx, r, desc, twd) (err)
+//@   prop C09
+//@   on-call tarOCILayoutDescPath: $twdHadIt = twd.files[result]
+//@   on-call RawBody: $expBody = result0
+//@   on-call tarWriteHeader: $expHdrName = arg1
+//@   on-call tarWriteHeader: $expHdrSize = arg2
+//@   ensures blob-copied-completely: err == nil && !$twdHadIt && desc.MediaType != mediatype.Docker1Manifest && desc.MediaType != mediatype.Docker1ManifestSigned && desc.MediaType != mediatype.Docker2Manifest && desc.MediaType != mediatype.OCI1Manifest && desc.MediaType != mediatype.Docker2ManifestList && desc.MediaType != mediatype.OCI1ManifestList ==> $ret(Copy, 0) == desc.Size
+//@ callsite (*tarWriteData).tarWriteHeader(filename, size)
+//@   prop C09
+//@   name tarWriteHeader/export
+//@   in ~
+//@   infunc \)\.imageExportDescriptor$
+//@   requires entry-named-by-the-digest-of-the-descriptor: filename == caller.tarFilename && caller.tarFilename == $ret(tarOCILayoutDescPath, 0) && $valid(caller.desc.Digest)
+//@ callsite tarOCILayoutDescPath(d)
+//@   prop C09
+//@   name tarOCILayoutDescPath/export
+//@   in ~
+//@   infunc \)\.imageExportDescriptor$
+//@   requires path-of-this-descriptor: d == caller.desc
+//@ callsite (*archive/tar.Writer).Write(b)
+//@   prop C09
+//@   name tar.Write/export
+//@   in ~
+//@   infunc \)\.imageExportDescriptor$
+//@   requires manifest-entry-is-the-raw-body: b == $expBody && $expHdrSize == len(b) && $expHdrName == caller.tarFilename
+//@ callsite WithManifestDesc(d)
+//@   prop C09
+//@   name WithManifestDesc/export
+//@   in ~
+//@   infunc \)\.imageExportDescriptor$
+//@   requires manifest-fetched-for-this-descriptor: d == caller.desc
+//@ callsite (*RegClient).ManifestGet(ctx, r, opts)
+//@   prop C09
+//@   name ManifestGet/export
+//@   in ~
+//@   infunc \)\.imageExportDescriptor$
+//@   requires from-the-exported-reference: r == caller.r
+//@ callsite (*RegClient).BlobGet(ctx, r, d)
+//@   prop C09
+//@   name BlobGet/export
+//@   in ~
+//@   infunc \)\.imageExportDescriptor$
+//@   requires blob-of-this-descriptor: r == caller.r && d == caller.desc
+//@ callsite io.Copy(dst, src)
+//@   prop C09
+//@   name io.Copy/export
+//@   in ~
+//@   infunc \)\.imageExportDescriptor$
+//@   requires blob-entry-copied-from-that-blob: $unbox(src, *blob.BReader) == $ret(BlobGet, 0) && $expHdrName == caller.tarFilename && $expHdrSize == caller.desc.Size
+//@ callsite (*RegClient).imageExportDescriptor(ctx, r, desc, twd)
+//@   prop C09
+//@   name imageExportDescriptor/recursion
+//@   in ~
+//@   infunc \)\.imageExportDescriptor$
+//@   requires into-the-manifests-own-parts: r == caller.r && twd == caller.twd && (desc == caller.confD || desc == caller.layerD || desc == caller.md)
+
+// ImageExport: index.json names exactly the exported image - the descriptor of the manifest fetched
+// for the reference, annotated with the export name and tag - and the walk starts from it.
+//@ callsite (*tarWriteData).tarWriteFileJSON(filename, data)
+//@   prop C09
+//@   name tarWriteFileJSON/index
+//@   in ~
+//@   infunc \)\.ImageExport$
+//@   where writes-the-index: filename == ociIndexFilename
+//@   requires index-names-the-exported-image: len($unbox(data, v1.Index).Manifests) == 1 && $unbox(data, v1.Index).Manifests[0].Digest == $ret(GetDescriptor, 0).Digest && $unbox(data, v1.Index).Manifests[0].Size == $ret(GetDescriptor, 0).Size && $unbox(data, v1.Index).Manifests[0].MediaType == $ret(GetDescriptor, 0).MediaType
+//@   requires with-its-tag: $unbox(data, v1.Index).Manifests[0].Annotations[annotationRefName] == caller.opt.exportRef.Tag
+//@ callsite (*RegClient).imageExportDescriptor(ctx, r, desc, twd)
+//@   prop C09
+//@   name imageExportDescriptor/ImageExport
+//@   in ~
+//@   infunc \)\.ImageExport$
+//@   requires walk-starts-at-the-exported-image: r == caller.r && desc.Digest == $ret(GetDescriptor, 0).Digest && desc.MediaType == $ret(GetDescriptor, 0).MediaType
+//@ callsite (*RegClient).ManifestGet(ctx, r, opts)
+//@   prop C09
+//@   name ManifestGet/ImageExport
+//@   in ~
+//@   infunc \)\.ImageExport$
+//@   requires the-requested-reference: r == caller.r
+
+// Import half: a blob is pushed under the descriptor it was announced with, to the requested
+// reference, reading the current tar entry, and is skipped only when the target already has it;
+// manifests are pushed only after the whole archive was read without error, the recorded finish
+// handlers running from the last (innermost) to the first (the tagged top level).
+//@ callsite (*RegClient).BlobPut(ctx, r, d, rdr)
+//@   prop C09
+//@   name BlobPut/import
+//@   in ~
+//@   infunc \)\.imageImportBlob$
+//@   requires under-the-announced-descriptor: r == caller.r && d == caller.desc && $unbox(rdr, *tar.Reader) == caller.trd.tr
+//@   requires only-when-the-target-lacks-it: $ret(BlobHead, 1) != nil
+//@ callsite (*RegClient).BlobHead(ctx, r, d)
+//@   prop C09
+//@   name BlobHead/import
+//@   in ~
+//@   infunc \)\.imageImportBlob$
+//@   requires probes-the-same-blob: r == caller.r && d == caller.desc
+//@ ghost $tarReadOK bool
+//@ func (*RegClient).ImageImport(ctx, r, rs, opts) (err)
+//@   prop C09
+//@   entry-assume !$tarReadOK
+//@   on-call tarReadAll: $tarReadOK = (result == nil)
+//@ callsite (*RegClient).imageImportOCIPushManifests(ctx, r, trd)
+//@   prop C09
+//@   name imageImportOCIPushManifests/ImageImport
+//@   in ~
+//@   infunc \)\.ImageImport$
+//@   requires manifests-after-all-blobs: $tarReadOK && trd == caller.trd
+//@ callsite (*RegClient).ManifestPut(ctx, r, m, opts)
+//@   prop C09
+//@   name ManifestPut/ImageImport
+//@   in ~
+//@   infunc \)\.ImageImport$
+//@   requires manifest-after-all-layers: $tarReadOK && r == caller.r
+//@ func (*RegClient).imageImportOCIPushManifests(ctx, r, trd) (err)
+//@   prop C09
+//@   loop 0 (i)
+//@     invariant innermost-first: -1 <= i && i < len(trd.finish)
+//@ callsite elem:finish()
+//@   prop C09
+//@   name finish[i]()/push
+//@   in ~
+//@   infunc \)\.imageImportOCIPushManifests$
+//@   requires runs-the-handlers-in-reverse: idx == caller.i && 0 <= idx && idx < len(caller.trd.finish)
